@@ -1,5 +1,5 @@
 """C14 - core features are exactly the always-selected features of the tree."""
-from vf import build, semantics
+from vf import build, semantics, strategies as S
 from vf.oracle import Raised, lib
 from vf.props import _bool
 from vf.runner import Sub
@@ -13,12 +13,39 @@ ASSUMPTIONS = ["always-selected set = intersection of all configurations from vf
 
 
 def check(case):
+    return _bool.run_with_edits(case, check_fm, "C14")
+
+
+def check_large(case):
+    """Models beyond brute force (groups of up to 300 leaves): the exact always-selected set of a constraint-free tree
+    is the closure of the root under 'the relation demands all of its members' (_bool.forced_links; cross-checked
+    against brute force on every small case in check_fm)."""
     from flamapy.metamodels.fm_metamodel.operations import FMCoreFeatures
     out = []
     fm = build.build(case)
     got = lib(lambda: FMCoreFeatures().execute(fm).get_result())
     if isinstance(got, Raised):
         return [(f"C14.raised:{got.label}", got.text)]
+    names = [getattr(f, "name", repr(f)) for f in got]
+    always, _ = _bool.forced_links(case)
+    if len(names) != len(set(names)):
+        out.append(("C14.duplicates", repr(names)[:200]))
+    if case["root"]["name"] not in names:
+        out.append(("C14.root-missing", repr(names)[:200]))
+    extra = sorted(set(names) - always)
+    if extra:
+        out.append(("C14.not-always-selected", f"{extra[:8]}"))
+    if set(names) != always:          # the only constraint drawn here is a tautology
+        out.append(("C14.incomplete", f"{len(always)} features are always selected, {len(set(names))} returned; missing {sorted(always - set(names))[:8]}"))
+    return out
+
+
+def check_fm(fm, case, out):
+    from flamapy.metamodels.fm_metamodel.operations import FMCoreFeatures
+    got = lib(lambda: FMCoreFeatures().execute(fm).get_result())
+    if isinstance(got, Raised):
+        out.append((f"C14.raised:{got.label}", got.text))
+        return out
     again = lib(lambda: (_bool.long_lived(FMCoreFeatures).execute(fm), _bool.long_lived(FMCoreFeatures).execute(fm).get_result())[1])
     if isinstance(again, Raised) or [f.name for f in again] != [f.name for f in got]:
         out.append(("C14.reused-object-differs", "a long-lived FMCoreFeatures object returns something else than a fresh one"))
@@ -35,6 +62,10 @@ def check(case):
             out.append(("C14.not-always-selected", f"{extra} of {names}"))
         if not case["ctcs"] and set(names) != set(always):
             out.append(("C14.incomplete", f"expected {sorted(always)}, got {sorted(names)}"))
+        if not case["ctcs"] and all(r["max"] == -1 or r["max"] >= 1 for r, _ in build.iter_rels(case["root"])) \
+                and all(r["min"] <= len(r["children"]) for r, _ in build.iter_rels(case["root"])):
+            if _bool.forced_links(case)[0] != set(always):
+                raise AssertionError("harness: forced_links disagrees with the brute-force enumerator")
     return out
 
 
@@ -46,6 +77,7 @@ def _forced_by_group(case):
 
 
 def nontrivial(case):
+    case = case["model"] if "edits" in case else case
     if _forced_by_group(case):
         return True
     for r, o in build.iter_rels(case["root"]):
@@ -55,6 +87,8 @@ def nontrivial(case):
 
 
 def classes(case):
+    if "edits" in case:
+        return _bool.edit_classes(case)
     out = _bool.structure_classes(case)
     if _forced_by_group(case):
         out.add("forced-by-group")
@@ -64,6 +98,12 @@ def classes(case):
 
 
 SUBS = [
+    Sub("large-models", check_large, gen=lambda tier: _bool.large_models(), nontrivial=lambda case: True,
+        classes=_bool.large_classes, n={"quick": 40, "thorough": 1000}, essential=["group>=257", "forced-by-group"]),
+    Sub("constraint-lists", check, gen=lambda tier: _bool.constraint_list_models(), nontrivial=nontrivial, classes=classes,
+        n={"quick": 200, "thorough": 2500}, essential=["with-ctcs"], min_nontrivial=0.0),
+    Sub("edit-histories", check, gen=lambda tier: _bool.edit_histories(S.BOOLEAN_ANY, 10, with_ctcs=True),
+        nontrivial=lambda case: True, classes=classes, n={"quick": 100, "thorough": 1500}, essential=["edit:move"]),
     Sub("shapes", check, enum=_bool.enum_shapes, nontrivial=nontrivial, classes=classes, exhaustive=True),
     Sub("random-no-ctcs", check, gen=lambda tier: _bool.random_models(False), nontrivial=nontrivial,
         classes=classes, n={"quick": 800, "thorough": 6000}, essential=["forced-by-group"]),
